@@ -692,4 +692,250 @@ Proof.
       inversion Hmode; subst s. cbn [ss_env]. apply andb_true_iff in Hall. apply Hall.
     + destruct (open_wal c (env_of d)) as [ores e]. cbn [hs_mode] in Hmode. discriminate.
 Qed.
+
+(* ================================================================== *)
+(* DeleteRange: the segments wholly inside the range lose their files  *)
+
+Lemma mutate_segs w t e r w' e' :
+  e_fault e = None -> NoDup (names (e_disk e)) -> st_failed w = false ->
+  mutate w t e = (r, w', e') -> st_failed w' = false -> r = ROk /\ st_segs w' = tx_segs t.
+Proof.
+  intros Hf ND Hw H Hw'. unfold mutate in H.
+  destruct (mutate_gen false w t e) as [[[r1 w1] e1] d1] eqn:Em. inversion H; subst.
+  destruct (mutate_gen_files false w t e r w' e' d1 Hf ND Hw Em Hw') as (E1 & E2 & _). auto.
+Qed.
+
+Lemma seg_set_listed_inv si l n : listed (seg_set si l) n = true -> n = name_of si \/ listed l n = true.
+Proof.
+  induction l as [|x r IH]; cbn [seg_set]; intros H.
+  - rewrite listed_single in H. apply fname_eqb_eq in H. left. symmetry. exact H.
+  - destruct (si_base si <? si_base x).
+    + rewrite listed_cons in H. apply orb_true_iff in H. destruct H as [H|H]; [left; apply fname_eqb_eq in H; symmetry; exact H|right; exact H].
+    + destruct (si_base si =? si_base x).
+      * rewrite listed_cons in H. apply orb_true_iff in H. destruct H as [H|H]; [left; apply fname_eqb_eq in H; symmetry; exact H|].
+        right. rewrite listed_cons, H. apply orb_true_r.
+      * rewrite listed_cons in H. apply orb_true_iff in H. destruct H as [H|H]; [right; rewrite listed_cons, H; reflexivity|].
+        destruct (IH H) as [K|K]; [left; exact K|right; rewrite listed_cons, K; apply orb_true_r].
+Qed.
+
+Lemma truncate_head_shape c w nm e r w' e' :
+  e_fault e = None -> NoDup (names (e_disk e)) -> st_failed w = false ->
+  truncate_head c w nm e = (r, w', e') -> st_failed w' = false ->
+  exists D rest, st_segs w = D ++ rest /\ Forall (fun s => max_idx (tail_last (st_tail w)) s < nm) D /\
+    match rest with
+    | [] => exists si, st_segs w' = [si] /\ si_id si = st_next_id w
+    | h :: R => nm <= max_idx (tail_last (st_tail w)) h /\ exists h', name_of h' = name_of h /\ st_segs w' = h' :: R
+    end.
+Proof.
+  intros Hf ND Hw H Hw'. unfold truncate_head in H.
+  destruct (head_scan nm (tail_last (st_tail w)) (st_segs w) [] 0) as [[[rest del] ntr] head] eqn:Ehs.
+  destruct (head_scan_parts _ _ _ _ _ _ _ _ _ Ehs) as (D & E1 & E2 & E3 & E4 & E5).
+  exists D, rest. split; [exact E1|]. split; [exact E4|].
+  destruct rest as [|h R]; subst head.
+  - unfold create_next in H. cbv beta iota zeta in H. change (tail_info []) with (@None seginfo) in H. cbv beta iota in H.
+    match type of H with mutate _ _ ?e0 = _ => destruct (mutate_segs _ _ e0 _ _ _ Hf ND Hw H Hw') as (_ & Es) end.
+    cbn [tx_segs seg_set] in Es. eexists. split; [exact Es|reflexivity].
+  - split; [exact E5|].
+    match type of H with mutate _ _ ?e0 = _ => destruct (mutate_segs _ _ e0 _ _ _ Hf ND Hw H Hw') as (_ & Es) end.
+    cbn [tx_segs] in Es. rewrite seg_set_head in Es by reflexivity. eexists. split; [|exact Es]. reflexivity.
+Qed.
+
+Lemma tt_finish_shape c w del t' ntr' X t0 tw e r w' e' nm :
+  e_fault e = None -> NoDup (names (e_disk e)) -> st_failed w = false ->
+  tt_finish c w del t' ntr' (X ++ [t0]) tw e = (r, w', e') -> st_failed w' = false ->
+  Forall (fun s => si_base s < si_base t0) X -> name_of t' = name_of t0 -> si_max t' = nm ->
+  forall n, listed (st_segs w') n = true -> snd n = st_next_id w \/ listed (X ++ [t0]) n = true.
+Proof.
+  intros Hf ND Hw H Hw' HX Hname Hmax n Hn. unfold tt_finish in H. cbv zeta in H.
+  assert (Hbase : si_base t' = si_base t0) by (apply (f_equal fst) in Hname; exact Hname).
+  rewrite (seg_set_last t' X t0 HX Hbase) in H.
+  unfold create_next in H. rewrite tail_info_app, Hmax in H. cbv beta iota zeta in H.
+  match type of H with mutate ?w0 _ ?e0 = _ => destruct (mutate_segs w0 _ e0 _ _ _ Hf ND Hw H Hw') as (_ & Es) end.
+  cbn [tx_segs] in Es. rewrite Es in Hn. apply seg_set_listed_inv in Hn. destruct Hn as [->|Hn]; [left; reflexivity|].
+  right. rewrite listed_app, listed_single in *. rewrite <- Hname. exact Hn.
+Qed.
+
+Lemma truncate_tail_shape c w nm e w' e' :
+  e_fault e = None -> NoDup (names (e_disk e)) -> st_failed w = false ->
+  StronglySorted lt_base (st_segs w) ->
+  truncate_tail c w nm e = (ROk, w', e') -> st_failed w' = false ->
+  forall n, listed (st_segs w') n = true ->
+    snd n = st_next_id w \/ exists y, In y (st_segs w) /\ name_of y = n /\ si_base y <= nm.
+Proof.
+  intros Hf ND Hw Hsorted H Hw' n Hn. rewrite truncate_tail_unfold in H. cbv zeta in H.
+  destruct (tail_scan nm (last_index (st_segs w) (st_tail w)) (rev (st_segs w)) [] 0) as [[rrest del] ntr] eqn:Ets.
+  destruct (tail_scan_parts _ _ _ _ _ _ _ _ Ets) as (Xd & E1 & E2 & E3 & E4).
+  assert (Esegs : st_segs w = rev rrest ++ rev Xd).
+  { rewrite <- rev_app_distr, <- E1, rev_involutive. reflexivity. }
+  destruct rrest as [|t0 rr].
+  - unfold create_next in H. change (tail_info []) with (@None seginfo) in H. cbv beta iota zeta in H.
+    destruct (mutate_segs w _ e _ _ _ Hf ND Hw H Hw') as (_ & Es). cbn [tx_segs seg_set] in Es.
+    rewrite Es, listed_single in Hn. apply fname_eqb_eq in Hn. subst n. left. reflexivity.
+  - cbn [rev] in *.
+    assert (HX : Forall (fun s => si_base s < si_base t0) (rev rr)).
+    { rewrite Forall_forall. intros z Hz. rewrite Esegs, <- app_assoc in Hsorted.
+      apply (sorted_app_lt (rev rr) ([t0] ++ rev Xd) z t0 Hsorted Hz). left. reflexivity. }
+    assert (Hfin : snd n = st_next_id w \/ listed (rev rr ++ [t0]) n = true ->
+                   snd n = st_next_id w \/ exists y, In y (st_segs w) /\ name_of y = n /\ si_base y <= nm).
+    { intros [K|K]; [left; exact K|right]. apply listed_spec in K. destruct K as (y & Hy & Hyn).
+      exists y. split; [rewrite Esegs; apply in_or_app; left; exact Hy|]. split; [exact Hyn|].
+      apply in_app_or in Hy. destruct Hy as [Hy|[<-|[]]]; [|exact E4].
+      rewrite Forall_forall in HX. specialize (HX _ Hy). cbn beta in HX. lia. }
+    destruct (si_sealed t0).
+    + apply Hfin. eapply tt_finish_shape in H; try eassumption; reflexivity.
+    + destruct (st_tail w) as [tw|]; [|discriminate].
+      destruct (seg_force_seal tw e) as [[r1 tw'] e1] eqn:Efs.
+      destruct (seg_force_seal_names _ _ _ _ _ Hf Efs) as (N1 & F1).
+      assert (ND1 : NoDup (names (e_disk e1))) by (rewrite N1; exact ND).
+      destruct r1; try discriminate.
+      apply Hfin. eapply tt_finish_shape in H; try eassumption; reflexivity.
+Qed.
+
+(* order of the index ranges along the segment list of a live state *)
+Lemma chain_order S t A x B y C :
+  S ++ [t] = A ++ x :: B ++ y :: C -> linked (S ++ [t]) -> Forall sst S ->
+  si_max x < si_base y /\ si_min y = si_base y /\ In x S.
+Proof.
+  intros E Hl Hs.
+  set (P := A ++ x :: B).
+  assert (EP : S ++ [t] = P ++ y :: C) by (unfold P; rewrite <- app_assoc; exact E).
+  destruct (exists_last (l := y :: C)) as (C' & z & EC); [discriminate|].
+  assert (ES : S = P ++ C').
+  { rewrite EC, app_assoc in EP. apply app_inj_tail in EP. apply EP. }
+  assert (HsP : Forall sst P) by (rewrite ES in Hs; apply Forall_app in Hs; apply Hs).
+  assert (HlP : linked (P ++ [y])).
+  { rewrite EP in Hl. replace (P ++ y :: C) with ((P ++ [y]) ++ C) in Hl by (rewrite <- app_assoc; reflexivity).
+    eapply linked_app_l; eauto. }
+  split.
+  - pose proof (linked_app_lt P y HlP HsP) as Hlt. rewrite Forall_forall in Hlt. apply Hlt.
+    unfold P. apply in_or_app. right. left. reflexivity.
+  - split.
+    + destruct (exists_last (l := P)) as (P' & q & EQ); [unfold P; destruct A; discriminate|].
+      rewrite EQ, <- app_assoc in HlP. cbn [app] in HlP. apply (linked_mid P' q y [] HlP).
+    + rewrite ES. apply in_or_app. left. unfold P. apply in_or_app. right. left. reflexivity.
+Qed.
+
+Lemma lv_range {c nb w d S t f tw} (V : lview c nb w d S t f tw) x :
+  In x (st_segs w) -> si_min x <= max_idx (tail_last (st_tail w)) x ->
+  first_index (st_segs w) (st_tail w) <= si_min x /\
+  max_idx (tail_last (st_tail w)) x <= last_index (st_segs w) (st_tail w).
+Proof.
+  intros Hin Hne. rewrite (lv_segs _ _ _ _ _ _ _ _ V) in *.
+  pose proof (lv_twf V) as (_ & _ & Hb1 & _ & Hbm & _).
+  pose proof (lv_tok _ _ _ _ _ _ _ _ V) as (Hu & _).
+  pose proof (lv_linked _ _ _ _ _ _ _ _ V) as Hl. pose proof (lv_Ssst V) as Hs.
+  pose proof (lv_sealed _ _ _ _ _ _ _ _ V) as Hso.
+  set (T := tail_last (st_tail w)) in *.
+  assert (Hfirst : first_index (S ++ [t]) (st_tail w) <= hd_min S t).
+  { unfold first_index, hd_min. fold T. destruct S as [|s S']; cbn [app hd].
+    - destruct (negb (si_sealed t) && (T =? 0)); lia.
+    - destruct (negb (si_sealed s) && (T =? 0)); lia. }
+  apply in_app_or in Hin. destruct Hin as [Hin|[<-|[]]].
+  - (* a sealed segment *)
+    assert (Hsx : si_sealed x = true) by (rewrite Forall_forall in Hso; apply (Hso x Hin)).
+    unfold max_idx in *. rewrite Hsx in *.
+    split; [pose proof (hd_min_le S t x Hs Hl Hin); lia|].
+    pose proof (linked_app_lt S t Hl Hs) as Hlt. rewrite Forall_forall in Hlt. specialize (Hlt x Hin). cbn beta in Hlt.
+    unfold last_index. fold T. destruct (0 <? T) eqn:ET.
+    + unfold T in *. rewrite (lv_tail_last V) in *. unfold tl_of in *. destruct (llen (df_ents f) =? 0); lia.
+    + rewrite rev_app_distr. cbn [rev app]. destruct (rev S) as [|y ys] eqn:Er.
+      { exfalso. apply (f_equal (@rev _)) in Er. rewrite rev_involutive in Er. subst S. destruct Hin. }
+      destruct (si_base t =? 0) eqn:Eb; lia.
+  - (* the tail *)
+    unfold max_idx in *. rewrite Hu in *. split.
+    + destruct (list_eq_dec_nil S) as [->|HneS]; [unfold hd_min in Hfirst; cbn [hd] in Hfirst; lia|].
+      destruct (lv_hd_min_lt V HneS). lia.
+    + unfold last_index. fold T. destruct (0 <? T) eqn:ET; lia.
+Qed.
+
+Lemma delete_range_drops c nb w e S t f tw mn mx w' e' :
+  lview c nb w (e_disk e) S t f tw -> e_fault e = None -> mx + 1 < two64 ->
+  delete_range c w mn mx e = (ROk, w', e') -> st_failed w' = false ->
+  forall x, In x (st_segs w) -> seg_inside mn mx (tail_last (st_tail w)) x = true ->
+  listed (st_segs w') (name_of x) = false.
+Proof.
+  intros V Hf Hmx H Hw' x Hin Hins.
+  unfold seg_inside in Hins. fold (max_idx (tail_last (st_tail w)) x) in Hins.
+  apply andb_true_iff in Hins. destruct Hins as (Hins & I3). apply andb_true_iff in Hins. destruct Hins as (I1 & I2).
+  destruct (lv_range V x Hin ltac:(lia)) as (R1 & R2).
+  pose proof (lv_sorted V) as Hsorted.
+  assert (ND : NoDup (names (e_disk e))) by (eapply DIs_NoDup; apply (lv_dis _ _ _ _ _ _ _ _ V)).
+  pose proof (lv_failed _ _ _ _ _ _ _ _ V) as Hw.
+  assert (Hwfx : si_base x <= si_min x /\ si_id x < st_next_id w).
+  { pose proof (lv_wf _ _ _ _ _ _ _ _ V) as Hwf. rewrite Forall_forall in Hwf. rewrite (lv_segs _ _ _ _ _ _ _ _ V) in Hin.
+    destruct (Hwf x Hin) as (_ & _ & _ & _ & A & B). auto. }
+  destruct Hwfx as (Hbx & Hidx).
+  unfold delete_range in H. rewrite (lv_closed _ _ _ _ _ _ _ _ V) in H.
+  destruct (mx <? mn) eqn:Emm; [exfalso; lia|]. rewrite Hw in H.
+  destruct ((mx <? first_index (st_segs w) (st_tail w)) || (last_index (st_segs w) (st_tail w) <? mn)) eqn:Eout; [exfalso; lia|].
+  destruct (listed (st_segs w') (name_of x)) eqn:El; [exfalso|reflexivity].
+  destruct (mn <=? first_index (st_segs w) (st_tail w)) eqn:Emn.
+  - (* head truncation *)
+    rewrite (N.mod_small (mx + 1) two64) in H by exact Hmx.
+    destruct (truncate_head_shape c w (mx + 1) e _ _ _ Hf ND Hw H Hw') as (D & rest & E1 & E2 & E3).
+    destruct rest as [|h R].
+    + destruct E3 as (si & Es & Eid). rewrite Es, listed_single in El. apply fname_eqb_eq in El.
+      apply (f_equal snd) in El. cbn in El. lia.
+    + destruct E3 as (Hh & h' & Hn' & Es). rewrite Es, listed_cons, Hn', <- listed_cons in El.
+      apply listed_spec in El. destruct El as (y & Hy & Hyn).
+      assert (y = x).
+      { apply (sorted_base_inj (st_segs w)); [exact Hsorted| |exact Hin|apply (f_equal fst) in Hyn; exact Hyn].
+        rewrite E1. apply in_or_app. right. exact Hy. }
+      subst y. destruct Hy as [<-|Hy]; [lia|].
+      apply in_split in Hy. destruct Hy as (Ra & Rb & ER). subst R.
+      rewrite (lv_segs _ _ _ _ _ _ _ _ V) in E1.
+      destruct (chain_order S t D h Ra x Rb E1 (lv_linked _ _ _ _ _ _ _ _ V) (lv_Ssst V)) as (C1 & _ & C3).
+      pose proof (lv_sealed _ _ _ _ _ _ _ _ V) as Hso. rewrite Forall_forall in Hso. destruct (Hso h C3) as (Hsh & _).
+      unfold max_idx in Hh. rewrite Hsh in Hh. lia.
+  - (* tail truncation *)
+    destruct (last_index (st_segs w) (st_tail w) <=? mx); [|discriminate].
+    destruct (truncate_tail_shape c w (mn - 1) e _ _ Hf ND Hw Hsorted H Hw' _ El) as [K|(y & Hy & Hyn & Hyb)].
+    + cbn in K. lia.
+    + assert (y = x).
+      { apply (sorted_base_inj (st_segs w)); [exact Hsorted|exact Hy|exact Hin|apply (f_equal fst) in Hyn; exact Hyn]. }
+      subst y. apply in_split in Hin. destruct Hin as (A & B & EA).
+      destruct (list_eq_dec_nil A) as [->|HneA].
+      * cbn [app] in EA. rewrite EA in Emn, R1. unfold first_index in Emn, R1.
+        assert (ET : negb (si_sealed x) && (tail_last (st_tail w) =? 0) = false).
+        { unfold max_idx in I3. destruct (si_sealed x); [reflexivity|]. cbn [negb andb]. lia. }
+        rewrite ET in Emn, R1. lia.
+      * destruct (exists_last HneA) as (A' & z & EZ). subst A. rewrite (lv_segs _ _ _ _ _ _ _ _ V) in EA.
+        rewrite <- app_assoc in EA. cbn [app] in EA.
+        destruct (chain_order S t A' z [] x B EA (lv_linked _ _ _ _ _ _ _ _ V) (lv_Ssst V)) as (_ & C2 & _). lia.
+Qed.
+
+Theorem delete_reclaims : delete_reclaims_stmt.
+Proof.
+  intros c steps s mn mx Hok Hmode Hret s0 s'.
+  assert (Hok0 : hist_ok c steps) by (eapply hist_ok_prefix; exact Hok).
+  pose proof (hist_invariant c steps Hok0) as (_ & Hga & _ & HM). rewrite Hmode in HM.
+  destruct HM as (_ & HL & Hf & Hsp & _).
+  destruct Hok as (Hc & Hwf & Hshort). pose proof Hwf as Hwf2. apply Forall_app in Hwf2. destruct Hwf2 as (_ & Hwo).
+  inversion Hwo as [|? ? Ho _]; subst. cbn [hstep_wf sop_ok] in Ho.
+  assert (Hb : 2 * N.of_nat (length steps) + 2 < two64).
+  { unfold short_enough in Hshort. rewrite app_length in Hshort. cbn [length] in Hshort. unfold two64. lia. }
+  set (nb := 2 * N.of_nat (length steps)) in *.
+  rewrite <- Hsp in Hga.
+  destruct (call_ok_all c (ODelete mn mx) nb s _ Hc Ho Hb HL Hf eq_refl Hga) as (r & s1 & Hst & _ & HL' & _).
+  assert (Hde : dir_exact (e_disk (ss_env s')) = true).
+  { apply (live_dir_exact c (steps ++ [HOp (ODelete mn mx)]) s' (conj Hc (conj Hwf Hshort))).
+    rewrite hist_run_app. unfold hist_run at 1. cbn [fold_left].
+    destruct (hstep_run_op c (hist_run c hist_init steps) s (ODelete mn mx) Hmode) as (_ & _ & Hm'). exact Hm'. }
+  unfold s' in *. rewrite Hst in *. cbn [fst snd] in *. subst r.
+  pose proof (LInv_exact_cov _ _ _ _ HL' Hde) as Hcov.
+  assert (H2 : forall n f, lookup n (dk_files (e_disk (ss_env s1))) = Some f -> listed (st_segs (ss_wal s1)) n = true).
+  { intros n f Hl. apply Hcov. apply in_names_lookup. congruence. }
+  split; [|split; [exact H2|intros x Hx; eapply LInv_listed_files; eauto]].
+  intros x Hx Hins.
+  destruct (settle_ok c nb s _ Hc HL Hf eq_refl ltac:(lia)) as (HL1 & _ & _ & He1). fold s0 in HL1, He1.
+  destruct (LInv_view _ _ _ _ HL1) as (S & t & f & tw & V).
+  cbn [step_model] in Hst. fold s0 in Hst.
+  destruct (delete_range c (ss_wal s0) mn mx (ss_env s0)) as [[r1 w1] e1] eqn:Ed. inversion Hst; subst r1 s1.
+  cbn [ss_wal ss_env] in *. pose proof HL' as (_ & Hfail' & _).
+  pose proof (delete_range_drops c _ _ _ S t f tw mn mx w1 e1 V (ext_fault _ _ _ He1) Ho Ed Hfail' x Hx Hins) as Hdrop.
+  destruct (lookup (name_of x) (dk_files (e_disk e1))) as [g|] eqn:El; [|reflexivity].
+  rewrite (H2 _ _ El) in Hdrop. discriminate.
+Qed.
+
 Print Assumptions live_dir_exact.
+Print Assumptions delete_reclaims.
